@@ -208,7 +208,20 @@ def array_calls(depth):
         st.tuples(int_arg(depth, -3, 6), int_arg(depth, -3, 12), st.sampled_from([1, 2, 3, -1, -2]).map(L)).map(lambda t: C("States.ArrayRange", *t)),
         arr_arg(depth).map(lambda a: C("States.ArrayUnique", a)),
         split_call(depth),
+        # the 1 000-item limit met exactly, and few items between huge bounds: a value, whatever the magnitudes
+        range_call(st.sampled_from([1, 2, 5, 999, 1000])),
     )
+
+
+@st.composite
+def range_call(draw, counts):
+    """States.ArrayRange(first, last, step) with a chosen number of items; first and step of any magnitude, last anywhere inside the final stride."""
+    n = draw(counts)
+    first = draw(st.sampled_from([0, 1, -5, 7, 10 ** 6, -10 ** 9, 2 ** 31 - 1, 2 ** 63, -2 ** 64, 10 ** 30]))
+    step = draw(st.sampled_from([1, 2, 3, 7, 1000, 10 ** 6, 2 ** 40, 10 ** 29])) * draw(st.sampled_from([1, -1]))
+    slack = draw(st.integers(0, abs(step) - 1)) if abs(step) <= 1000 else draw(st.sampled_from([0, 1, abs(step) // 2, abs(step) - 1]))
+    last = first + step * (n - 1) + (slack if step > 0 else -slack)
+    return C("States.ArrayRange", L(first), L(last), L(step))
 
 
 @st.composite
@@ -249,7 +262,7 @@ BOGUS_NAMES = ["States.Nope", "States.format", "Format", "arglist", "evaluate_in
 @st.composite
 def ill_formed(draw):
     """-> (expression text, tag).  The reference must agree that the text is ill-formed (checked by the caller)."""
-    kind = draw(st.sampled_from(["arity", "type", "name", "unbalanced-paren", "unbalanced-quote", "bad-token", "bad-path", "trailing"]))
+    kind = draw(st.sampled_from(["arity", "type", "name", "unbalanced-paren", "unbalanced-quote", "bad-token", "bad-path", "trailing", "range-size"]))
     if kind == "arity":
         f = draw(st.sampled_from(["States.ArrayPartition", "States.ArrayContains", "States.ArrayRange", "States.ArrayGetItem",
                                   "States.ArrayLength", "States.ArrayUnique", "States.Base64Encode", "States.Base64Decode",
@@ -277,6 +290,9 @@ def ill_formed(draw):
             ("States.MathRandom", [L(1), P("$.fi")]), ("States.MathAdd", [L(1.0), L(2)]), ("States.MathAdd", [L(1), P("$.fi")]),
         ]))
         return C(f, *args).render(), "type"
+    if kind == "range-size":
+        # more than 1 000 items: just over the limit, and so many that the array could not be built at all
+        return draw(range_call(st.sampled_from([1001, 1002, 2000, 10 ** 6, 2 ** 31, 2 ** 63 + 1, 10 ** 30, 10 ** 100]))).render(), "range-size"
     if kind == "name":
         n = draw(st.sampled_from(BOGUS_NAMES))
         args = [draw(scalar_arg()) for _ in range(draw(st.integers(0, 2)))]
